@@ -199,7 +199,13 @@ func (h *H) offer1(m *Mon, b coin.SignedBlock, label string) bool {
 			return true
 		}
 		if m.Arb {
-			// an arbitrating node may drop transactions; only non-arbitrating acceptance is judged
+			// an arbitrating node may drop transactions; only non-arbitrating acceptance is judged,
+			// except for the publisher signature, which no configuration may waive
+			for _, c := range hardConds {
+				if c.Name == "signature" {
+					h.Viol("C04", "accepted-invalid-block", map[string]string{"node": m.Name, "label": label, "cond": c.Name, "all": condNames(conds)}, submitted)
+				}
+			}
 			m.M.ApplyBlock(*stored)
 			return true
 		}
